@@ -246,6 +246,9 @@ package participle
 //@   loop 5 invariant -1 <= rangeindex && rangeindex < len(fieldValue)
 //@   loop 5 invariant len(out) == rangeindex + 1 && forall(k, 0, rangeindex + 1, out[k] == uf("fn__reflect.Value_.String_r0", "Str", fieldValue[k]))
 //@   loop 5 decreases len(fieldValue) - rangeindex
+// a conversion error is never swallowed
+//@   let ce error = result1 after call participle.conform#1 default nil
+//@   ensures @convKept ce != nil ==> result != nil [C17]
 //@   before call strings.Join#1: assert sep == "" && len(elems) == len(fieldValue) && forall(k, 0, len(fieldValue), elems[k] == uf("fn__reflect.Value_.String_r0", "Str", fieldValue[k])) [C17]
 //@   before call participle.Wrapf#1: assert len(tokens) > 0 ==> pos == tokens[0].Pos [C17]
 //@   before call participle.Wrapf#2: assert len(tokens) > 0 ==> pos == tokens[0].Pos [C17]
@@ -1145,6 +1148,7 @@ package participle
 //@   requires err != nil
 //@   let p lexer.Position = result0 after call Error.Position#1
 //@   let m string = result0 after call Error.Message#1
+//@   let m string = result0 after call Error.Message#2
 //@   let lc string = result0 after call fmt.Sprintf#1
 //@   before call fmt.Sprintf#1: assert format == "%d:%d:" && len(a) == 2 && a[0] == iface(p.Line) && a[1] == iface(p.Column)
 //@   ensures p.Filename == "" && p.Line == 0 && p.Column == 0 ==> result == m
